@@ -24,3 +24,9 @@ func SetLoopState(f func(render func() string)) { bluemonday.VerifLoopStateHook 
 
 // Snapshot renders the policy object graph and all package-level variables.
 func Snapshot(p *bluemonday.Policy) string { return bluemonday.VerifSnapshot(p) }
+
+// SnapshotPolicy renders the policy object graph only.
+func SnapshotPolicy(p *bluemonday.Policy) string { return bluemonday.VerifSnapshotPolicy(p) }
+
+// SnapshotGlobals renders all package-level variables of both packages.
+func SnapshotGlobals() string { return bluemonday.VerifSnapshotGlobals() }
